@@ -771,7 +771,8 @@ func (w *world) deliverAfter(batch []delivered, kind string, src chain.Chain, fi
 			out.Count("sync:left-own-chain-for-invalid(F11)")
 		}
 	}
-	// (4) failure index. The batch is refused as a whole (index 0, nothing changed) when its first unknown momentum does not
+	// (4) failure index. The batch is refused as a whole (index of its first unknown momentum since fix 39747b8 — the
+	// deliverer of THAT momentum is the one to blame, not the deliverer of the known prefix —, nothing changed) when its first unknown momentum does not
 	// sit on one of ours, sits more than 30 below the frontier, or the batch does not end above the frontier; otherwise
 	// an error must name the first element OF THE DELIVERED BATCH (known prefix included) that does not verify, the node
 	// stops on the element before it, and a batch of genuine linked momentums must be accepted.
@@ -782,8 +783,8 @@ func (w *world) deliverAfter(batch []delivered, kind string, src chain.Chain, fi
 		known := fmt.Sprintf("known-prefix:%d", min(firstUnknown, 6))
 		switch {
 		case refuse:
-			out.Oracle(cls == 1 && idx == 0 && after.Identifier() == before.Identifier(), "insertchain-refuses-unlinked-deep-or-not-longer",
-				M{"kind": kind, "class": cname, "index": idx})
+			out.Oracle(cls == 1 && idx == firstUnknown && after.Identifier() == before.Identifier(), "insertchain-refuses-unlinked-deep-or-not-longer",
+				M{"kind": kind, "class": cname, "index": idx, "first_unknown": firstUnknown})
 			out.Count("sync:refused")
 		case firstBad >= 0:
 			out.Oracle(cls == 1 && idx == firstBad, "insertchain-reports-index-of-failing-momentum",
